@@ -256,9 +256,13 @@ class HImpl:
             # the read-only questions are public operations too: asked of the operands and results of this call (about every substance
             # of the library, present or not), they leave every object as it was
             mid = self.watch.snapshot()
+            mid_out = [fp(o) for o in out]
             asked = self.observe([self.vars[v] for v in self.operands(op) if v < len(self.vars)] + list(out))
             for t in self.watch.changed(mid):
                 fails.append(f"read-only observers ({asked}) after {op['op']}: {t}")
+            for j, (o, b) in enumerate(zip(out, mid_out)):
+                if fp(o) != b:
+                    fails.append(f"read-only observers ({asked}) asked of result {j} of {op['op']} changed it: {diff_fp(b, fp(o))}")
         if obs['ok']:
             for j, o in enumerate(out):
                 if id(o) in old_parts:
